@@ -45,6 +45,9 @@ P['C17'] = dict(cat='other', tech=CODEC + '; truncating-write rule with writers-
 P['C06'] = dict(cat='other', tech='finite-model walk of the CFG (A7) against the documented decision table + effect sets + loop normal form (custom libTooling checker)',
    text='Partial claim: the four indexed setters match the append/replace/extend table on every row of a finite (idx,size) model with unsigned semantics, touch only their own container and contain no loop; column adders append exactly once per stored frame/sub-frame with matching indices. Does not observe bit-for-bit equality of untouched frames.',
    note='Relies on the C08 no-aliasing result. ' + TB, ref='4/C06')
+P['C07'] = dict(cat='other', tech='finite-model evaluation of guard prefixes over the CFG (A7) against a transcribed contract table; structural loop rules; catch-order analysis of the SWIG interface',
+   text='Partial claim: on every row of a finite model of the compared quantities, must-refuse rows end in the documented exception class before any store and must-accept rows reach the store; label/duplicate rules hold structurally; the binding maps every thrown class to the documented scripting exception. Does not decide acceptance beyond the guard tables.',
+   note='Trusts spec/api_contract.json. ' + TB, ref='4/C07')
 NA = {
  'C19': 'compares compiled artefacts across optimisation levels / link kinds; not decidable from source without running the builds (DESIGN 4/C19)',
 }
